@@ -17,6 +17,7 @@ func main() {
 	dump := flag.Bool("dump-synth", false, "write synthetic spec files to out/synth")
 	verbose := flag.Bool("v", false, "verbose")
 	replay := flag.String("replay", "", "replay file")
+	evdir := flag.String("evidence-dir", "", "write evidence files to this directory instead of /verif/evidence (seed runs)")
 	all := flag.Bool("all", false, "check every claimed property")
 	writeBase := flag.Bool("write-baseline", false, "with -all: write baseline_obligations.json when every claimed property is green")
 	sweepAll := flag.Bool("sweep-safety", false, "run the zero-annotation safety sweep over every function (diagnostic)")
@@ -24,7 +25,7 @@ func main() {
 	if t := os.Getenv("VERIF_TIER"); t != "" && !isFlagSet("tier") {
 		*tier = t
 	}
-	cfg := &RunCfg{Repo: *repo, Mirror: *mirror, Tier: *tier, Out: *out, DumpSynth: *dump, Verbose: *verbose}
+	cfg := &RunCfg{Repo: *repo, Mirror: *mirror, Tier: *tier, Out: *out, DumpSynth: *dump, Verbose: *verbose, EvidenceDir: *evdir}
 	switch {
 	case *replay != "":
 		os.Exit(runReplay(cfg, *replay))
